@@ -4,6 +4,11 @@ import json, os
 HERE = os.path.dirname(os.path.dirname(os.path.abspath(__file__)))
 
 CHECKS = {
+ 'C09': dict(
+   category='model_checking',
+   text="SampleAlg.tla models every sample class of sample.py (_DefaultIndex, _CustomIndex, _Empty, _Add, _Mul, _TakeElements, _Zip) with a code layer (nelems/npoints/getindex/evaluable indices computed as the class does) and a denotation (elements, points, weight factors); TLC checks IndexPartition, EvalOrder, EvIndexAgrees, Quadrature, OpLaw over all nestings of the public operations; every nesting is rebuilt from real base samples and compared on nelems, npoints, getindex, row-by-row eval and integrate = sum(weight x value). GaussOracle.tla gives exact monomial integrals (dyadic affine images of references, closed simplex formula) for all reference elements, child subsets and dyadic half-space trims; TLC checks RefVolume/ChildrenTile/TrimSplits and the live decompositions exported from the code (T); Gauss schemes of all degrees are compared with the oracle (2e-13), plus points-inside and sum of weights.",
+   note="take_elements judged for strictly increasing index lists; trims are dyadic half-spaces; quadrature comparison numeric against exact rationals; rename_spaces and tuple degrees not covered.",
+   technique="TLA+ sample-algebra model + exact quadrature oracle checked by TLC; nestings replayed on real samples; exported decompositions validated by TLC"),
  'C20': dict(
    category='model_checking',
    text="Dimension.tla/DimMachine.tla/DimFn.tla model dimensions as exponent vectors at two levels: what physics dictates (rule classes for the 85 dispatched functions) and a code-shaped level (powers dicts with zero-stripping, class-name construction/parsing character by character, the Dimension cache, the 18 dispatchers); UnitGrammar/UnitMachine model unit definition, parsing and formatting. TLC checks homomorphism, abelian-group laws, Sound/NoSpuriousReject, CacheSound, UniqueParse, RoundTrip; every emitted transition/program/string outcome is replayed on real SI.Quantity objects (S->C) and the live dispatch table (85 entries) and unit table (701 keys) are checked by TLC (T).",
